@@ -114,24 +114,29 @@ func (i *Indexer) initBlocks() error {
 
 func (i *Indexer) Notify(_ context.Context, blk *chain.ExecutedBlock) error {
 	i.mu.Lock()
+	consecutive := blk.Block.Hght == i.lastHeight+1
 	i.insertBlockIntoCache(blk)
 	i.mu.Unlock()
 
-	return i.storeBlock(blk)
+	return i.storeBlock(blk, consecutive)
 }
 
 // insertBlockIntoCache add the given block and its transactions to the
 // cache.
 // assumes the write lock is held
 func (i *Indexer) insertBlockIntoCache(blk *chain.ExecutedBlock) {
-	if evictedBlk, ok := i.blockHeightToBlock[blk.Block.Hght-i.blockWindow]; ok {
-		// remove the block from the caches
-		delete(i.blockIDToHeight, evictedBlk.Block.GetID())
-		delete(i.blockHeightToBlock, evictedBlk.Block.GetHeight())
-
-		// remove the transactions from the cache.
-		for _, tx := range evictedBlk.Block.Txs {
-			delete(i.txCache, tx.GetID())
+	if blk.Block.Hght >= i.blockWindow {
+		expiredHeight := blk.Block.Hght - i.blockWindow
+		if blk.Block.Hght == i.lastHeight+1 {
+			i.evictBlockFromCache(expiredHeight)
+		} else {
+			// The block does not directly follow the last one (height gap or repeated
+			// delivery), so any block at or below the expired height may still be cached.
+			for height := range i.blockHeightToBlock {
+				if height <= expiredHeight {
+					i.evictBlockFromCache(height)
+				}
+			}
 		}
 	}
 
@@ -147,9 +152,29 @@ func (i *Indexer) insertBlockIntoCache(blk *chain.ExecutedBlock) {
 	i.lastHeight = blk.Block.Hght
 }
 
-// storeBlock persist the given block to the database, and deletes a block
-// if it surpasses the retention window
-func (i *Indexer) storeBlock(blk *chain.ExecutedBlock) error {
+// evictBlockFromCache removes the block at the given height (if any) and its
+// transactions from the cache.
+// assumes the write lock is held
+func (i *Indexer) evictBlockFromCache(height uint64) {
+	evictedBlk, ok := i.blockHeightToBlock[height]
+	if !ok {
+		return
+	}
+	// remove the block from the caches
+	delete(i.blockIDToHeight, evictedBlk.Block.GetID())
+	delete(i.blockHeightToBlock, height)
+
+	// remove the transactions from the cache.
+	for _, tx := range evictedBlk.Block.Txs {
+		delete(i.txCache, tx.GetID())
+	}
+}
+
+// storeBlock persist the given block to the database, and deletes the blocks
+// that surpass the retention window. [consecutive] reports whether the block
+// directly follows the previously stored one, in which case at most one block
+// can have left the window.
+func (i *Indexer) storeBlock(blk *chain.ExecutedBlock, consecutive bool) error {
 	executedBlkBytes, err := blk.Marshal()
 	if err != nil {
 		return err
@@ -161,8 +186,16 @@ func (i *Indexer) storeBlock(blk *chain.ExecutedBlock) error {
 		return err
 	}
 
-	if err := blkBatch.Delete(blockEntryKey(blk.Block.Hght - i.blockWindow)); err != nil {
-		return err
+	if blk.Block.Hght >= i.blockWindow {
+		expiredHeight := blk.Block.Hght - i.blockWindow
+		if !consecutive {
+			if err := i.blockDB.DeleteRange(blockEntryKey(0), blockEntryKey(expiredHeight)); err != nil {
+				return err
+			}
+		}
+		if err := blkBatch.Delete(blockEntryKey(expiredHeight)); err != nil {
+			return err
+		}
 	}
 
 	return blkBatch.Write()
